@@ -397,6 +397,26 @@ func registerStd(e *Engine) {
 			return c.False(), true
 		})
 	}
+	// unique.Make[T]: interning by value; the handle is a pointer to one canonical heap object per value
+	e.reg("unique.Make", func(e *Engine, st *State, cc *CallCtx) (Value, bool) {
+		key := cc.Fn.String() + "|" + e.deepShow(st, cc.Args[0])
+		if strings.Contains(key, "<sym>") {
+			panic(unsupported("unique.Make on a symbolic value"))
+		}
+		if e.uniq == nil {
+			e.uniq = map[string]int{}
+		}
+		id, ok := e.uniq[key]
+		if !ok {
+			id = e.newObj()
+			e.uniq[key] = id
+		}
+		if _, ok := st.heap[id]; !ok {
+			st.dirty = true
+			st.heap[id] = cc.Args[0]
+		}
+		return StructV{F: []Value{Ptr{Obj: id}}}, true
+	})
 	e.reg("unique.Make[string]", func(e *Engine, st *State, cc *CallCtx) (Value, bool) {
 		return StructV{F: []Value{NativeV{Tag: "uniq", V: e.normStr(cc.Args[0].(StrV))}}}, true
 	})
